@@ -683,6 +683,10 @@ static void do_pause(struct ev *e) {
 }
 
 /* Called before the real call.  Takes ownership of path/path2. */
+/* second name under which the NEXT event of this thread can be matched by a rule ("noatime": an open that asks for
+   O_NOATIME - the kernel refuses it with EPERM for files of another owner, which a rule of that kind models) */
+static __thread const char *ev_alias;
+
 static void ev_begin(struct ev *e, const char *kind, int mutating, char *path, char *path2,
                      int force_active) {
     memset(e, 0, sizeof *e);
@@ -704,8 +708,8 @@ static void ev_begin(struct ev *e, const char *kind, int mutating, char *path, c
         if (r->count == 0) continue;
         if (r->proc != 2 && r->proc != is_child) continue;
         if (strcmp(r->kind, "*") && strcmp(r->kind, kind)) {
-            /* "mut" matches any mutating call */
-            if (!(mutating && !strcmp(r->kind, "mut"))) continue;
+            /* "mut" matches any mutating call; an alias names a sub-class of the call (open with O_NOATIME) */
+            if (!(mutating && !strcmp(r->kind, "mut")) && !(ev_alias && !strcmp(r->kind, ev_alias))) continue;
         }
         if (r->path && (!path || strcmp(r->path, path))) continue;
         if (r->suffix && (!path || !ends_with(path, r->suffix))) continue;
@@ -845,7 +849,9 @@ static int open_common(int dirfd, const char *path, int flags, mode_t mode, int 
     struct ev e;
     char extra[32];
     snprintf(extra, sizeof extra, "fl=%x", flags);
+    ev_alias = (flags & O_NOATIME) ? "noatime" : NULL;
     ev_begin(&e, w ? "openw" : "open", w, ap, NULL, 0);
+    ev_alias = NULL;
     int ret, err;
     if (ev_fail(&e)) {
         ret = -1;
